@@ -1,11 +1,16 @@
 // C27 — generated desktop files can only launch the snap's own apps.
 //
-// In-package harness (needs the unexported sanitizeDesktopFile). Exhaustive enumeration of desktop
-// files built from a line alphabet (headers, allow-listed and other keys, locale suffixes, Exec
-// commands x argument tails, Icon values as token sequences with ${SNAP}), for snaps with and without
-// an instance key, with several apps whose names collide by prefix. The oracle reads the *output* the
-// way a desktop launcher does and checks the statement's four clauses on every output line, plus
-// provenance (every output line is explained by an input line, in order).
+// In-package harness (needs the unexported sanitizeDesktopFile and deriveDesktopFilesContent).
+// Exhaustive enumeration of desktop files built from a line alphabet (headers, allow-listed and other
+// keys, locale suffixes, Exec commands x argument tails, Icon values as token sequences with ${SNAP}),
+// for snaps with and without an instance key, with several apps whose names collide by prefix, and of
+// the base NAME of the desktop file in meta/gui (plain, blank, tab, newline, quotes, backslash, %, =,
+// $ and backtick, ;, #, ${SNAP}, non-ASCII), which the snap chooses and which ends up in every Exec
+// line. The sanitizer is called directly and through files created in a temporary mount dir's meta/gui
+// and the real deriveDesktopFilesContent. The oracle reads the *output* the way a desktop launcher does
+// (Exec values with a reference reader of the Desktop Entry Specification's Exec syntax) and checks the
+// statement's four clauses on every output line, plus provenance (every output line is explained by an
+// input line, in order).
 package wrappers
 
 import (
